@@ -226,6 +226,8 @@ func (r DenseReal32Vector) MdotV(a ConstMatrix, b ConstVector) Vector {
     panic("matrix/vector dimensions do not match!")
   }
   if n == 0 || m == 0 {
+    // empty sums
+    r.Reset()
     return r
   }
   if r.AT(0) == b.ConstAt(0) {
@@ -247,6 +249,8 @@ func (r DenseReal32Vector) MDOTV(a *DenseReal32Matrix, b DenseReal32Vector) Vect
     panic("matrix/vector dimensions do not match!")
   }
   if n == 0 || m == 0 {
+    // empty sums
+    r.Reset()
     return r
   }
   if r.AT(0) == b.ConstAt(0) {
@@ -270,6 +274,8 @@ func (r DenseReal32Vector) VdotM(a ConstVector, b ConstMatrix) Vector {
     panic("matrix/vector dimensions do not match!")
   }
   if n == 0 || m == 0 {
+    // empty sums
+    r.Reset()
     return r
   }
   if r.AT(0) == a.ConstAt(0) {
@@ -291,6 +297,8 @@ func (r DenseReal32Vector) VDOTM(a DenseReal32Vector, b *DenseReal32Matrix) Vect
     panic("matrix/vector dimensions do not match!")
   }
   if n == 0 || m == 0 {
+    // empty sums
+    r.Reset()
     return r
   }
   if r.AT(0) == a.ConstAt(0) {
